@@ -5,6 +5,7 @@ import (
 	"go/ast"
 	"go/types"
 	"math/big"
+	"strings"
 )
 
 // assumed contracts of functions outside the module (each use is recorded in the notes => evidence)
@@ -180,6 +181,106 @@ func (e *Engine) callExternal(fn *types.Func, recv Value, args []Value, cx *ast.
 		st.assume(mkNot(mkEq(r, mkConst("nil", SRef))))
 		return VTerm{T: r, Typ: fn.Type().(*types.Signature).Results().At(0).Type()}
 	}
-	unsup("external function %s at %s", full, e.src(cx))
-	return nil
+	return e.defaultExternal(full, fn, recv, args, cx, st)
+}
+
+var externalPkgs = map[string]bool{"encoding/json": true, "encoding/csv": true, "net/http": true, "io": true, "os": true, "path/filepath": true, "path": true,
+	"strings": true, "errors": true, "fmt": true, "time": true, "log/slog": true, "bufio": true, "io/fs": true, "strconv": true, "log": true, "reflect": true}
+
+func (e *Engine) extCounter(st *State, kind string, ref *Term) *Term {
+	return st.getMem(kind+":"+ref.String(), mkApp(kind+"0", SInt, ref))
+}
+
+// default assumed contract of a standard-library call: arbitrary results, no effect on the module's state except
+// through pointers passed to it; refined for the decoders / readers whose progress and field counts matter
+func (e *Engine) defaultExternal(full string, fn *types.Func, recv Value, args []Value, cx *ast.CallExpr, st *State) Value {
+	pkg := ""
+	if fn.Pkg() != nil {
+		pkg = fn.Pkg().Path()
+	}
+	if !externalPkgs[pkg] {
+		unsup("external function %s at %s", full, e.src(cx))
+	}
+	e.notes["assumed external (default contract: arbitrary results, effects only through pointer arguments): "+full] = true
+	sig := fn.Type().(*types.Signature)
+	var isig *types.Signature
+	if tv, ok := e.info().Types[cx.Fun]; ok {
+		isig, _ = tv.Type.(*types.Signature)
+	}
+	if isig == nil {
+		isig = sig
+	}
+	// pointer arguments are filled in by the callee
+	for _, a := range append(append([]Value(nil), args...), e.lastAnyArgs...) {
+		if ad, ok := a.(VAddr); ok {
+			st.vars[ad.Obj] = e.freshValue(ad.Obj.Name(), ad.Obj.Type(), st)
+		}
+	}
+	var results []Value
+	for i := 0; i < isig.Results().Len(); i++ {
+		rt := isig.Results().At(i).Type()
+		v := e.freshValue("ext."+sanitize(fn.Name()), rt, st)
+		if vt, ok := v.(VTerm); ok && vt.T.Sort == SRef && rt.String() != "error" {
+			e.localRefs[vt.T.String()] = true
+		}
+		results = append(results, v)
+	}
+	nilT := mkConst("nil", SRef)
+	errOf := func() *Term {
+		for i := 0; i < isig.Results().Len(); i++ {
+			if isig.Results().At(i).Type().String() == "error" {
+				return term(results[i])
+			}
+		}
+		return nil
+	}
+	switch full {
+	case "encoding/json.Decoder.More":
+		rt := recv.(VTerm).T
+		st.assume(mkImplies(term(results[0]), mkCmp(">", e.extCounter(st, "extrem", rt), mkInt(0))))
+	case "encoding/json.Decoder.Decode", "encoding/csv.Reader.Read":
+		// progress: a successful read consumes input (the remaining input is a well-founded measure); a failed one does not
+		rt := recv.(VTerm).T
+		old := e.extCounter(st, "extrem", rt)
+		nr := e.fresh("extrem", SInt)
+		err := errOf()
+		st.assume(mkAnd(mkImplies(mkEq(err, nilT), mkAnd(mkCmp("<=", mkInt(0), nr), mkCmp("<", nr, old))), mkImplies(mkNot(mkEq(err, nilT)), mkEq(nr, old))))
+		st.mem["extrem:"+rt.String()] = nr
+		if full == "encoding/csv.Reader.Read" {
+			// FieldsPerRecord == 0 (default): every record has the field count of the first record read
+			rec := results[0].(VSlice)
+			fpr := e.extCounter(st, "csvfpr", rt)
+			nf := e.fresh("csvfpr", SInt)
+			st.assume(mkImplies(mkEq(err, nilT), mkAnd(mkImplies(mkCmp("<", fpr, mkInt(0)), mkEq(nf, rec.Len)), mkImplies(mkCmp(">=", fpr, mkInt(0)), mkAnd(mkEq(nf, fpr), mkEq(rec.Len, fpr))))))
+			st.assume(mkImplies(mkNot(mkEq(err, nilT)), mkEq(nf, fpr)))
+			st.mem["csvfpr:"+rt.String()] = nf
+		}
+	case "encoding/csv.NewReader":
+		st.mem["csvfpr:"+term(results[0]).String()] = mkInt(-1)
+		st.assume(mkCmp(">=", e.extCounter(st, "extrem", term(results[0])), mkInt(0)))
+	case "encoding/json.NewDecoder":
+		st.assume(mkCmp(">=", e.extCounter(st, "extrem", term(results[0])), mkInt(0)))
+	case "os.OpenFile":
+		// ghost: was the file opened with O_TRUNC / O_APPEND (flags are a constant expression in this code base)
+		if fl := term(args[1]); fl.Op == "int" && fl.Int.IsInt64() {
+			f := term(results[0])
+			st.mem["ftrunc:"+f.String()] = mkInt(fl.Int.Int64() & 0x200 >> 9)
+			st.mem["fappend:"+f.String()] = mkInt(fl.Int.Int64() & 0x400 >> 10)
+		}
+	case "net/http.Client.Do", "net/http.NewRequest", "os.Open", "os.Create":
+		if err := errOf(); err != nil {
+			st.assume(mkImplies(mkEq(err, nilT), mkNot(mkEq(term(results[0]), nilT))))
+		}
+	}
+	rk := strings.NewReplacer(".", "_", "/", "_").Replace(strings.TrimPrefix(full, pkg+"."))
+	rk = fn.Pkg().Name() + "_" + rk
+	switch len(results) {
+	case 0:
+		return VTuple{}
+	case 1:
+		e.callRes[rk] = append(e.callRes[rk], results[0])
+		return results[0]
+	}
+	e.callRes[rk] = append(e.callRes[rk], VTuple(results))
+	return VTuple(results)
 }
